@@ -34,6 +34,19 @@
 (*   downscale of the intact preceding scale.  Allowed: an error, or a level *)
 (*   equal to that global downscale; a normal return with anything else is   *)
 (*   oracle:FailsInsteadOfWrongData (pos 5: completed and correct).          *)
+(* mode "level", via = "lib" (function API) | "cli" (compute-scales main) |  *)
+(*   "v2p" (all-in-one volume-to-precomputed-pyramid main).  At the TOOL     *)
+(*   level (cli, v2p) raised = "" means main returned a zero / empty exit    *)
+(*   status: the property's last clause then demands that the level exists   *)
+(*   and equals the global downscale WHATEVER info the tool was given (also  *)
+(*   hand-edited incompatible chunk sizes): a zero status with a missing,    *)
+(*   unwritten or wrong level on a pair that cannot be processed is          *)
+(*   oracle:FailsInsteadOfWrongData.                                         *)
+(* mode "level", foreign = TRUE: the two sizes are not related by factors 1  *)
+(*   / 2 per axis (e.g. factor 3): outside the per-axis model; an error is   *)
+(*   what the property asks for; a completed tool run must have written the  *)
+(*   global downscale by the size ratio (pos 6) - else                       *)
+(*   oracle:FailsInsteadOfWrongData (function API: observation, pos 3).      *)
 (* Silent corruption is a verdict only for pairs the generator emitted       *)
 (* (gen) or that are processable by design; hand-made incompatible pairs are *)
 (* reported through pos (3) - the property quantifies over generated infos.  *)
@@ -41,6 +54,7 @@
 (* 2 model SilentWrong / code raised, 3 hand-made pair silently wrong as the *)
 (* model predicts, 4 model Error / code completed with wrong data (hand-made)*)
 (* 5 source fault / code completed with the correct level                    *)
+(* 6 foreign size ratio / code completed with the correct level              *)
 EXTENDS PyramidAssembly, Json, IOUtils
 
 Cases == ndJsonDeserialize(IOEnv.TRACE_FILE)
@@ -55,6 +69,14 @@ SpecOutcome(c) == Combine([a \in 1..3 |-> Outcome(c.axes[a])])
 Ref(c) == IF c.sel = "auto"
           THEN (IF c.itype = "image" THEN c.ref_image ELSE c.ref_segmentation)
           ELSE c.ref
+Tool(c) == c.via \in {"cli", "v2p"}
+\* sizes not related by factors 1 / 2
+ForeignVerdict(c) ==
+  LET wrong == c.missing > 0 \/ c.a # c.b \/ c.a # Ref(c)
+  IN IF c.raised # "" THEN <<"ok", 0>>
+     ELSE IF ~wrong THEN <<"ok", 6>>
+     ELSE IF Tool(c) THEN <<"oracle:FailsInsteadOfWrongData", 0>>
+     ELSE <<"ok", 3>>
 \* a source chunk of the preceding scale is missing / unreadable
 FaultVerdict(c) ==
   LET spec == SpecOutcome(c)
@@ -66,20 +88,24 @@ FaultVerdict(c) ==
      ELSE <<"ok", 3>>
 PlainLevelVerdict(c) ==
   LET spec == SpecOutcome(c)
-      strict == c.gen \/ spec = "Correct"
-      bad == IF c.missing > 0 THEN "oracle:MissingChunk"
+      strict == c.gen \/ spec = "Correct" \/ Tool(c)
+      bad0 == IF c.missing > 0 THEN "oracle:MissingChunk"
              ELSE IF c.a # c.b THEN "oracle:UnwrittenVoxel"
              ELSE IF c.a # Ref(c)
                   THEN (IF spec = "Correct" THEN "oracle:LevelEqualsGlobalDownscale"
                         ELSE "oracle:SilentWrongData")
              ELSE "ok"
+      \* tool level, pair that cannot be processed, zero status: the last clause
+      bad == IF bad0 # "ok" /\ spec # "Correct" /\ ~c.gen /\ Tool(c)
+             THEN "oracle:FailsInsteadOfWrongData" ELSE bad0
   IN IF c.raised # ""
      THEN (IF spec = "Correct" THEN <<"oracle:LevelEqualsGlobalDownscale", 0>>
            ELSE <<"ok", IF spec = "SilentWrong" THEN 2 ELSE 0>>)
      ELSE IF bad = "ok" THEN <<"ok", IF spec = "Correct" THEN 0 ELSE 1>>
      ELSE IF strict THEN <<bad, IF spec = "Error" THEN 4 ELSE 0>>
      ELSE <<"ok", IF spec = "SilentWrong" THEN 3 ELSE 4>>
-LevelVerdict(c) == IF c.fault # "" THEN FaultVerdict(c) ELSE PlainLevelVerdict(c)
+LevelVerdict(c) == IF c.foreign THEN ForeignVerdict(c)
+                   ELSE IF c.fault # "" THEN FaultVerdict(c) ELSE PlainLevelVerdict(c)
 
 \* ---- mode "prov" ------------------------------------------------------------
 NSz(ax) == NewSize(ax)
